@@ -452,6 +452,78 @@ def estep (s : ESpace) : EOp → ESpace
 
 def erun (c : ECfg) (cap : Nat) (ops : List EOp) : ESpace := ops.foldl estep (einit c cap)
 
+/-! ### vectors of the wrong length
+The code never checks the length of a point; numpy decides.  Against the `nd ≥ 2` columns of the space a one-element vector
+broadcasts (it stands for its `nd`-fold repetition), any other wrong length raises `ValueError` — except that the distances of a
+bounded (non-torus) space come from `scipy.cdist`, which insists on `nd` columns.  (On a 1-D space numpy would broadcast the
+space's single column against a longer vector instead: not modelled, the functions below are about `nd ≥ 2`.) -/
+
+/-- the vector numpy computes with when `p` meets the `nd` columns of the space -/
+def bcast (nd : Nat) (p : Pos) : Except Err Pos :=
+  if p.length = nd then .ok p
+  else match p with
+    | [x] => .ok (List.replicate nd x)
+    | _ => .error .value
+
+/-- `ndims` -/
+def ESpace.nd (s : ESpace) : Nat := s.cfg.dims.length
+
+/-- `agent.position = p` for a `p` of any length (`in_bounds` / `torus_correct` broadcast or raise first) -/
+def agentSetV (s : ESpace) (a : Aid) (p : Pos) : Except Err ESpace :=
+  if s.gone a then .error .attr
+  else match bcast s.nd p with
+    | .error e => .error e
+    | .ok q => setPos s a q
+
+/-- `agent.position += v` for a `v` of any length (the getter, then `+=` on the copy, then the setter) -/
+def agentIaddV (s : ESpace) (a : Aid) (v : Pos) : Except Err ESpace :=
+  match agentGet s a with
+  | .error e => .error e
+  | .ok q =>
+    match bcast s.nd v with
+    | .error e => .error e
+    | .ok v' => agentSet s a (vadd q v')
+
+/-- `space.agent_positions[i] = p` for a `p` of any length (the index is looked at first) -/
+def rawWriteV (s : ESpace) (i : Nat) (p : Pos) : Except Err ESpace :=
+  if i < s.view then
+    match bcast s.nd p with
+    | .error e => .error e
+    | .ok q => .ok { s with buf := upd s.buf i q }
+  else .error .index
+
+/-- the point a query computes with: distances of a non-torus space go through `cdist` (exact length or `ValueError`),
+    everything else through numpy broadcasting -/
+def queryPoint (s : ESpace) (viaCdist : Bool) (pt : Pos) : Except Err Pos :=
+  if viaCdist && !s.cfg.torus then (if pt.length = s.nd then .ok pt else .error .value) else bcast s.nd pt
+
+/-- a query about `agents=sub` at a point of any length: the rows are selected first (`KeyError` / `IndexError`), then the
+    point meets them -/
+def withPoint {α : Type} (s : ESpace) (viaCdist : Bool) (pt : Pos) (sub : Option (List Aid)) (f : Pos → Except Err α) :
+    Except Err α :=
+  match (match sub with | none => (.ok [] : Except Err (List (Aid × Pos))) | some l => rowsOf s l) with
+  | .error e => .error e
+  | .ok _ =>
+    match queryPoint s viaCdist pt with
+    | .error e => .error e
+    | .ok q => f q
+
+def distancesOfV (s : ESpace) (pt : Pos) (sub : Option (List Aid)) : Except Err (List (Aid × Int)) :=
+  withPoint s true pt sub (fun q => distancesOf s q sub)
+
+def diffsOfV (s : ESpace) (pt : Pos) (sub : Option (List Aid)) : Except Err (List (Aid × Pos)) :=
+  withPoint s false pt sub (fun q => diffsOf s q sub)
+
+def agentsInRadiusV (s : ESpace) (pt : Pos) (r : Int) : Except Err (List (Aid × Int)) :=
+  withPoint s true pt none (fun q => .ok (agentsInRadius s q r))
+
+def kNearestV (argpart : List Int → Nat → List Nat) (s : ESpace) (pt : Pos) (k : Nat) : Except Err (List (Aid × Int)) :=
+  withPoint s true pt none (fun q => kNearest argpart s q k)
+
+/-- `in_bounds(p)` / `torus_correct(p)` -/
+def inBoundsV (s : ESpace) (p : Pos) : Except Err Bool := (bcast s.nd p).map (inBounds s.cfg.dims)
+def torusCorrectV (s : ESpace) (p : Pos) : Except Err Pos := (bcast s.nd p).map (torusCorrect s.cfg.dims)
+
 /-! ### references to `space.agent_positions` kept by the user
 `agent_positions` is re-sliced from `_agent_positions` by every add / remove, and `_agent_positions` is re-allocated
 (`np.vstack`) when it is full.  A reference `v = space.agent_positions` the user keeps is a view of rows `0 .. len` of the
